@@ -414,12 +414,11 @@ func c05Slots(c *Ctx, k *core) {
 				idx = ia.Index
 			}
 		}
-		// guard: dominated by update.source == slots[idx].source
-		okGuard := false
-		if okAddr {
-			for _, ec := range condsDominating(st.Block()) {
+		// guard: dominated by update.source == slots[idx].source (or != on the false edge)
+		identAt := func(blk *ssa.BasicBlock, idxV ssa.Value) bool {
+			for _, ec := range condsDominating(blk) {
 				b, ok := ec.Cond.(*ssa.BinOp)
-				if !ok || b.Op != token.EQL || !ec.Val {
+				if !ok || !((b.Op == token.EQL && ec.Val) || (b.Op == token.NEQ && !ec.Val)) {
 					continue
 				}
 				isUpdSrc := func(v ssa.Value) bool { _, ok := isFieldLoad(v, fUpdSrc); return ok }
@@ -430,14 +429,13 @@ func c05Slots(c *Ctx, k *core) {
 					}
 					// base: &slots[idx] directly, or a local copy of *(&slots[idx])
 					if ia2, ok := base.(*ssa.IndexAddr); ok {
-						return ia2.X == ia.X && ia2.Index == idx
+						return ia2.X == ia.X && ia2.Index == idxV
 					}
 					if al, ok := base.(*ssa.Alloc); ok {
-						// the store into the local that dominates the comparison
 						for _, r := range *al.Referrers() {
 							if s, ok := r.(*ssa.Store); ok && s.Addr == al {
 								if ld, ok := s.Val.(*ssa.UnOp); ok && ld.Op == token.MUL {
-									if ia2, ok := ld.X.(*ssa.IndexAddr); ok && ia2.X == ia.X && ia2.Index == idx {
+									if ia2, ok := ld.X.(*ssa.IndexAddr); ok && ia2.X == ia.X && ia2.Index == idxV {
 										return true
 									}
 								}
@@ -447,8 +445,44 @@ func c05Slots(c *Ctx, k *core) {
 					return false
 				}
 				if (isUpdSrc(b.X) && isSlotSrc(b.Y)) || (isUpdSrc(b.Y) && isSlotSrc(b.X)) {
-					okGuard = true
+					return true
 				}
+			}
+			return false
+		}
+		nonNegAt := func(blk *ssa.BasicBlock, v ssa.Value) bool {
+			for _, ec := range condsDominating(blk) {
+				b, ok := ec.Cond.(*ssa.BinOp)
+				if !ok {
+					continue
+				}
+				lo, isLo := constInt(b.Y)
+				if b.X != v || !isLo {
+					continue
+				}
+				switch {
+				case b.Op == token.GEQ && lo == 0 && ec.Val, b.Op == token.GTR && lo == -1 && ec.Val, b.Op == token.NEQ && lo == -1 && ec.Val,
+					b.Op == token.LSS && lo == 0 && !ec.Val, b.Op == token.EQL && lo == -1 && !ec.Val, b.Op == token.LEQ && lo == -1 && !ec.Val:
+					return true
+				}
+			}
+			return false
+		}
+		okGuard := false
+		if okAddr {
+			okGuard = identAt(st.Block(), idx)
+			// ... or the index is "the matching slot, else a negative constant" (a scan folded back in), tested non-negative
+			if ph, isPhi := idx.(*ssa.Phi); !okGuard && isPhi && nonNegAt(st.Block(), idx) {
+				all := len(ph.Edges) > 0
+				for ei, e := range ph.Edges {
+					if n, isC := constInt(e); isC && n < 0 {
+						continue
+					}
+					if !identAt(ph.Block().Preds[ei], e) {
+						all = false
+					}
+				}
+				okGuard = all
 			}
 		}
 		// ... or the index was found by a slot-finder helper applied to (slots, update.source) and tested non-negative
